@@ -8,7 +8,7 @@ import json, os, collections
 from fractions import Fraction as Fr
 from core import *
 
-NEEDS = ["Expr", "Net", "Edges", "EdgesProofs", "Corr"]
+NEEDS = ["Expr", "Net", "Edges", "EdgesProofs", "Corr", "IndexedEquiv"]   # IndexedEquiv: E2 tie of _get_indexed_var_str (edge index strings)
 
 # A case (JSON):
 #   ops    : {opname: {"vars": [[name, kind, value]], "eqs": [[lhs, is_de, poly]], "out": name|None}}
